@@ -136,3 +136,39 @@ package generic
 //@     invariant forall k string :: old(has(gstore(params), k)) && !has(gstore(params), k) ==> seen(k) && old(glive(params, k))
 //@     invariant forall k string :: has(gstore(params), k) ==> old(has(gstore(params), k)) && gstore(params)[k] == old(gstore(params)[k])
 //@     invariant count == old(len(gstore(params))) - len(gstore(params))
+
+// ---- MSET key value [key value ...]: every named key holds the adapted value of one of its pairs afterwards; others untouched.
+//@ func msetKeyFunc props C01,C12
+//@   requires len(cmd) >= 1
+//@   ensures {C01} pairs: (result1 != nil) <==> ((len(cmd) - 1) % 2 != 0)
+//@   modifies nothing
+//@   loop 0
+//@     invariant -1 <= rangeindex && rangeindex < len(rangeslice) && (keys == nil || fresh(keys))
+
+// gpair(k, j): word j of the command names key k and word j+1 is its value.
+//@ spec gpair(params internal.HandlerFuncParams, k string, j int) bool = 1 <= j && j + 1 < len(params.Command) && j % 2 == 1 && garg(params, j) == k
+//@ spec gmset_named(params internal.HandlerFuncParams, k string) bool = exists j int :: gpair(params, k, j)
+
+//@ func handleMSet props C01,C12
+//@   requires henv(params)
+//@   assumes own-cmd: len(params.Command) >= 2 ==> disjointarr(params.Command, $srv.keysWithExpiry.keys[dbof(params.Context)])
+//@   ensures {C01} arity: (len(params.Command) - 1) % 2 != 0 ==> result1 != nil
+//@   ensures {C01} written: result1 == nil ==> (forall k string :: gmset_named(params, k) ==> has(gstore(params), k) && (exists j int :: gpair(params, k, j) && gstore(params)[k].Value == internal.adapt(garg(params, j + 1))))
+//@   ensures {C01,C20} otherkeys: forall k string :: !gmset_named(params, k) ==> (has(gstore(params), k) <==> old(has(gstore(params), k))) && gstore(params)[k] == old(gstore(params)[k])
+//@   ensures {C20} otherdbs: forall d int :: d != dbof(params.Context) ==> $srv.store[d] == old($srv.store[d])
+//@   loop 0
+//@     invariant -1 <= rangeindex && rangeindex < len(rangeslice) && len(rangeslice) == len(params.Command) - 1 && len(rangeslice) % 2 == 0 && fresh(entries)
+//@     invariant forall j int :: 0 <= j && j < len(params.Command) ==> params.Command[j] == garg(params, j)
+//@     invariant forall j int :: 0 <= j && j < len(rangeslice) ==> rangeslice[j] == garg(params, j + 1)
+//@     invariant forall k string :: has(entries, k) <==> (exists j int :: gpair(params, k, j) && j <= rangeindex + 1)
+//@     invariant forall k string :: has(entries, k) ==> (exists j int :: gpair(params, k, j) && j <= rangeindex + 1 && entries[k] == internal.adapt(garg(params, j + 1)))
+//@     invariant gpure(params)
+
+// ---- MGET key [key ...]: reads only. (The reply conflates a missing key with an empty string and is not specified here.)
+//@ func handleMGet props C13,C12
+//@   requires henv(params)
+//@   assumes own-cmd: len(params.Command) >= 2 ==> disjointarr(params.Command, $srv.keysWithExpiry.keys[dbof(params.Context)])
+//@   ensures {C13} arity: len(params.Command) < 2 ==> result1 != nil
+//@   ensures {C13} pure: gpure(params)
+//@   ensures {C13,C04} onlyexpired: forall k string :: old(has(gstore(params), k)) && !has(gstore(params), k) ==> old(sugardb.expired(gstore(params)[k], $now))
+//@   ensures {C20} otherdbs: forall d int :: d != dbof(params.Context) ==> $srv.store[d] == old($srv.store[d])
